@@ -25,9 +25,9 @@ class Gen:
         d = self.d
         base = ['Text', 'Blob', 'TinyInteger', 'SmallInteger', 'Integer', 'BigInteger', 'TinyUnsigned', 'SmallUnsigned', 'Unsigned', 'BigUnsigned', 'Float', 'Double', 'DateTime', 'Timestamp',
                 'TimestampWithTimeZone', 'Time', 'Date', 'Boolean', 'Json', 'JsonBinary', 'Uuid', 'char', 'char_n', 'string_n', 'string_none', 'string_max', 'decimal', 'decimal_ps', 'money', 'money_ps',
-                'binary', 'varbinary_n', 'bit', 'bit_n', 'varbit', 'custom', 'enum', 'interval']
+                'binary', 'varbinary_n', 'varbinary_none', 'varbinary_max', 'bit', 'bit_n', 'varbit', 'custom', 'enum', 'interval']
         if d == 'mysql': base += ['Year']
-        if d == 'postgres': base += ['Cidr', 'Inet', 'MacAddr', 'LTree', 'array', 'interval_p']
+        if d == 'postgres': base += ['Cidr', 'Inet', 'MacAddr', 'LTree', 'array', 'array2', 'array_str', 'interval_p']
         if d == 'sqlite': base = [b for b in base if b not in ('interval', 'bit', 'bit_n', 'varbit')]      # types SQLite's builder refuses (unimplemented!) are not requested
         return base
     def mk_type(self, k):
@@ -52,6 +52,10 @@ class Gen:
         if k == 'interval': return ['Interval', None, None]
         if k == 'interval_p': return ['Interval', None, n(0, 6)]
         if k == 'array': return ['Array', 'Integer']
+        if k == 'array2': return ['Array', ['Array', 'Integer']]
+        if k == 'array_str': return ['Array', ['Array', ['Array', ['String', ['N', n()]]]]]
+        if k == 'varbinary_none': return ['VarBinary', 'None']
+        if k == 'varbinary_max': return ['VarBinary', 'Max']
         return k
     def spec(self, name, k):
         if k == 'Default': return ['Default', ['val', V('Int', self.num(0, 1000000))]]
@@ -173,7 +177,7 @@ def verdict(st, d, text):
             elif c[0] == 'index_type': using = c[1].upper()
             elif c[0] == 'include' and d == 'postgres': extra.setdefault('include', []); extra['include'].append(c[1])
             elif c[0] == 'nulls_not_distinct' and d == 'postgres': extra['nnd'] = True
-            elif c[0] == 'and_where' and d != 'mysql': extra['where'] = tuple(e_idents(c[1]))
+            elif c[0] == 'and_where' and d != 'mysql': extra['where'] = extra.get('where', ()) + tuple(e_idents(c[1]))
         if 'include' in extra: extra['include'] = tuple(extra['include'])
         kind = it[1]
         want = ('create_index', 'UNIQUE' if kind in ('UNIQUE', 'PRIMARY') else kind, ifne, it[2], tbl, using, it[3], tuple(sorted(extra.items())))
@@ -235,7 +239,8 @@ def gen_statement(e, d, family, quick):
         if e.choose(2, 'col2'): calls.append(['col', {'name': 'name', 'type': ['String', ['N', g.num()]], 'specs': []}])
         ik = e.choose(4, 'index')
         if ik:
-            ix = [['name', 'ix1'], ['col', 'id'] + ([['Desc']][0] if e.choose(2, 'ixorder') else [])]
+            ix = ([['name', 'ix1']] if e.choose(2, 'ixnamed') else []) + [['col', 'id'] + ([['Desc']][0] if e.choose(2, 'ixorder') else [])]
+            if d == 'mysql' and ik != 3 and e.choose(2, 'ixtype'): ix.append(['index_type', 'Hash'])
             if e.choose(2, 'ixcol2'): ix.append(['col', 'name'])
             if ik == 2: ix.append(['unique'])
             if d == 'postgres' and ik in (2, 3) and e.choose(2, 'ixinclude'): ix.append(['include', 'name'])
@@ -292,7 +297,9 @@ def gen_statement(e, d, family, quick):
         if d == 'postgres':
             if e.choose(2, 'include'): ix.append(['include', 'inc'])
         if d in ('postgres', 'sqlite'):
-            if e.choose(2, 'where'): ix.append(['and_where', cmpx('a')])
+            if e.choose(2, 'where'):
+                ix.append(['and_where', cmpx('a')])
+                if e.choose(2, 'where2'): ix.append(['and_where', cmpx('b')])      # predicates accumulate (AND)
         t = e.choose(3, 'itype') if d != 'sqlite' else 0
         if t: ix.append(['index_type', ['BTree', 'Hash'][t - 1]])
         st = {'k': 'index_create', 'calls': ix}
